@@ -84,6 +84,7 @@ struct Res
     union
         file File
         folder Folder
+        sharedLink Linky
     name String
 
 struct File extends Res
@@ -91,6 +92,10 @@ struct File extends Res
 
 struct Folder extends Res
     "leaf without fields"
+
+struct Linky extends Res
+    "leaf whose subtype tag is not spelled the way generated Python names are"
+    url String?
 
 struct ResC
     union_closed
